@@ -10,6 +10,7 @@ set_option linter.unusedVariables false
 namespace Enc.Lemmas.JsonCodecChoiceShape
 open Enc.Model.Json.CodecChoice Enc.Spec.Json.StdCodecChoice Enc.Spec.Json.EmbedCycle
 open Enc.Lemmas.JsonCodecChoiceSeen Enc.Lemmas.JsonCodecChoiceStd Enc.Lemmas.JsonCodecChoiceEvo Enc.Lemmas.JsonCodecChoiceEmb
+open Enc.Lemmas.JsonCodecChoiceTerm (under_ref_not_special under_ref_ne)
 
 theorem normCL_append : ∀ (a b : CL), normCL (a.append b) = (normCL a).append (normCL b)
   | .nil, b => by simp [CL.append, normCL]
@@ -69,7 +70,7 @@ theorem kind_plain (codec : CodecFn) (strct : StructFn) (env : Env) (t u : TD) (
         | some r2 =>
           obtain ⟨kr, z⟩ := r2; simp only [h2] at h
           cases kr <;> simp at h <;> rw [← h.1] <;> rfl
-  · cases h1 : strct t a s with
+  · cases h1 : strct t a none s with
     | none => simp [h1] at h
     | some r => obtain ⟨x, y⟩ := r; simp [h1] at h; rw [← h.1]; cases x <;> rfl
   · rename_i e
@@ -103,7 +104,7 @@ theorem codec_plain (env : Env) (f : Nat) (t : TD) (a : Bool) (s s' : Seen) (c :
       split at h
       · simp at h; rw [← h.1]; rfl
       · rename_i hcond
-        generalize hsin : (if (isRef t && isComposite (under env t)) = true then s.set (t, false) Entry.building else s) = sin at h
+        generalize hsin : (if (isRef t && isComposite (under env t)) = true then s.set (t, false) (Entry.building (t, false)) else s) = sin at h
         cases hk : kindF (codecF f env) (structF f env) env t (under env t) a sin with
         | none => simp [hk] at h
         | some r =>
